@@ -43,7 +43,7 @@ def main(argv):
         root = os.path.join(VERIF, "benign")
         dirs = sorted(os.path.join(root, x) for x in os.listdir(root) if os.path.exists(os.path.join(root, x, "patch.diff")))
     rc = 0
-    with ThreadPoolExecutor(max_workers=4) as ex:
+    with ThreadPoolExecutor(max_workers=12) as ex:
         for d, res, err in ex.map(run_one, dirs):
             name = os.path.basename(d.rstrip("/"))
             if err:
